@@ -139,6 +139,34 @@ func c03Run(c *mon.Ctx, idx int) {
 			B = &bm
 			c.Count("matches_twin_operands")
 		}
+		// sibling quantifiers: B is A's twin - same kind, collection, binding
+		// mode and names - with another body (one that errors on elements A's
+		// body accepts, the negation, a different literal). Anything that folds
+		// the two walks into one changes which errors are reached.
+		if qa, ok := A.(*xgen.Quant); ok && r.Intn(2) == 0 {
+			qb := *qa
+			bn := qa.Name
+			if qa.Mode == xgen.BindValue || qa.Mode == xgen.BindIndexValue {
+				bn = qa.Name2
+			}
+			bsel := xgen.Sel{Parts: []string{bn}, Spell: []int{xgen.SpDot}}
+			switch r.Intn(5) {
+			case 0:
+				qb.Body = &xgen.Not{X: qa.Body}
+			case 1:
+				qb.Body = &xgen.Match{Sel: bsel, Op: xgen.OpEmpty}
+			case 2:
+				qb.Body = &xgen.Match{Sel: bsel, Op: xgen.OpEq, Lit: &xgen.Lit{S: []string{"1", "2", "a", "x", "true"}[r.Intn(5)], Style: xgen.StyleQuoted}}
+			case 3:
+				qb.Body = &xgen.Match{Sel: bsel, Op: xgen.OpMatches, Lit: &xgen.Lit{S: "^[a-z1]", Style: xgen.StyleQuoted}}
+			default:
+				qb.Body = &xgen.Or{L: &xgen.Match{Sel: bsel, Op: xgen.OpIn, Lit: &xgen.Lit{S: "1", Style: xgen.StyleQuoted}}, R: qa.Body}
+			}
+			if bb := refsem.Eval(&qb, node, opt); bb.Unspec != "" || bb.Single() {
+				B = &qb
+				c.Count("sibling_quantifier_operands")
+			}
+		}
 		oa, ta, ok1 := evalText(A, r, node, opt)
 		ob, tb, ok2 := evalText(B, r, node, opt)
 		if !ok1 || !ok2 {
@@ -434,7 +462,7 @@ func init() {
 		NumCases:    func(tier string) int { return tierN(tier, 8000, 150000) },
 		Run:         c03Run,
 		Required: func(tier string) []string {
-			l := []string{"quantified_operand", "collision_datum_cases", "colliding_twin_operands", "matches_twin_operands", "long_chains", "very_long_chains", "cell:not/T", "cell:not/F", "cell:not/E"}
+			l := []string{"quantified_operand", "collision_datum_cases", "colliding_twin_operands", "matches_twin_operands", "sibling_quantifier_operands", "long_chains", "very_long_chains", "cell:not/T", "cell:not/F", "cell:not/E"}
 			for _, op := range []string{"and", "or"} {
 				for _, a := range []string{"T", "F", "E"} {
 					for _, b := range []string{"T", "F", "E"} {
